@@ -330,6 +330,7 @@ func runC19(c *Ctx) {
 	c19Close(c)
 	c19Table(c)
 	c19Process(c)
+	c19OwnStorage(c)
 	c19NoNestedLock(c)
 }
 
@@ -1137,4 +1138,43 @@ func c19Process(c *Ctx) {
 	}
 	c.R.Check(n >= 1 && bad == "", "R-C19-6", fn+":every-recognised-state-recorded", fn, c.pos(pr.Pos()), fmt.Sprintf("%d iteration path(s) with a recognised state; %s", n, bad),
 		"each link message with a recognised operational state appends exactly one change for its interface", "a change that occurred is not delivered (e.g. a state that recurs within one batch)")
+}
+
+
+// c19OwnStorage (R-C19-7, linux): the change lists process() builds own their
+// storage: no value that goes into the change set is a sub-slice of a buffer
+// shared between interfaces. A two-index slice expression keeps the capacity
+// of the underlying array, so appending to one interface's list writes into
+// the slots of the next one (eth0 down, eth1 down, eth0 up delivers "up" to
+// eth1's subscribers).
+func c19OwnStorage(c *Ctx) {
+	if c.P.Cfg.GOOS != "linux" {
+		return
+	}
+	pr := c.P.Func("internal/netstate", "process")
+	if pr == nil {
+		return
+	}
+	fn := c.fname(pr)
+	bad := ""
+	n := 0
+	for _, f := range an.WithAnon(pr) {
+		for _, b := range f.Blocks {
+			for _, in := range b.Instrs {
+				sl, ok := in.(*ssa.Slice)
+				if !ok {
+					continue
+				}
+				if _, isSlice := sl.X.Type().Underlying().(*types.Slice); !isSlice {
+					continue // slicing a fresh array (a literal) is how Go builds slices
+				}
+				n++
+				if sl.Max == nil {
+					bad = "sub-slice of a shared slice without a capacity limit at " + c.pos(instrPos(sl))
+				}
+			}
+		}
+	}
+	c.R.Check(bad == "", "R-C19-7", fn+":change-lists-own-their-storage", fn, c.pos(pr.Pos()), fmt.Sprintf("%d sub-slice expression(s); %s", n, bad),
+		"process() carves no change list out of a shared buffer (or caps its capacity with a three-index slice)", "changes of one interface are overwritten by, or delivered as, changes of another")
 }
